@@ -233,7 +233,7 @@ pub fn oci(max_name: usize, out: &mut Out) {
         if !out.mine() {
             continue;
         }
-        out.op(format!("# nameck {}", hex(name.as_bytes())));
+        out.op(format!("nameck {}", hex(name.as_bytes())));
         let r = refs[k % refs.len()];
         let urls = [
             format!("/v2/{name}/blobs/{r}"),
@@ -505,5 +505,61 @@ pub fn sibs(size: usize, out: &mut Out) {
                 }
             }
         }
+    }
+}
+
+/// Long inputs: counts that cross 255/256 (a rank field or a counter narrowed to `u8`), hundreds of parameters, long literal
+/// runs, deep and wide optional groups — each template alone in a router, printed, searched with the path it fits and near
+/// misses, cloned, deleted (tenth round, C07-g: `depth` summed in a `u8`).
+pub fn long(size: usize, out: &mut Out) {
+    let mut ns = vec![254usize, 255, 256, 257, 300];
+    if size >= 2 {
+        ns.push(600);
+    }
+    let mut cases: Vec<(String, String)> = vec![];
+    for &n in &ns {
+        cases.push(("/".repeat(n), "/".repeat(n)));
+        cases.push(("/a".repeat(n), "/a".repeat(n)));
+        cases.push((format!("/{{p}}{}", "/".repeat(n)), format!("/v{}", "/".repeat(n))));
+        cases.push((format!("/{{*w}}{}", "/x".repeat(n)), format!("/u/v{}", "/x".repeat(n))));
+        cases.push((format!("/{}{{*w}}", "x/".repeat(n)), format!("/{}u/v", "x/".repeat(n))));
+        cases.push(((0..n / 2).map(|i| format!("/{{p{i}}}")).collect::<String>(), "/v".repeat(n / 2)));
+        cases.push((format!("/{}", "a".repeat(n)), format!("/{}", "a".repeat(n))));
+        cases.push((format!("/{}{{p}}", "é".repeat(n)), format!("/{}v", "é".repeat(n))));
+        cases.push((format!("/a(/{}){{*w}}", "b/".repeat(n)), format!("/a/{}v", "b/".repeat(n))));
+    }
+    for k in [40usize, 128, 260] {
+        cases.push((format!("/x{}{}", "(/a".repeat(k), ")".repeat(k)), format!("/x{}", "/a".repeat(k))));
+        cases.push((format!("/x{}{}", "(/a".repeat(k), ")".repeat(k)), format!("/x{}", "/a".repeat(k / 2))));
+    }
+    cases.push((format!("/x{}", "(/a)".repeat(8)), "/x/a/a/a".to_owned()));
+    cases.push((format!("/x{}", (0..8).map(|i| format!("(/{i})")).collect::<String>()), "/x/1/3/7".to_owned()));
+    for (t, p) in cases {
+        if !out.mine() {
+            continue;
+        }
+        out.reset();
+        out.new_router(0, KEYS);
+        out.insert(0, &t, 1);
+        out.op(format!("parse {}", hex(t.as_bytes())));
+        out.display(0);
+        out.search(0, &p);
+        out.search(0, &format!("{p}/"));
+        out.search(0, &p[..p.len() - 1]);
+        out.insert(0, "/{*rest}", 2);
+        out.search(0, &p);
+        out.search(0, &format!("{p}x"));
+        out.op("clone 0 1".to_owned());
+        out.insert(0, &t, 3);
+        out.delete(0, &t);
+        out.display(0);
+        out.search(0, &p);
+        out.search(1, &p);
+        out.delete(1, &t);
+        out.display(1);
+        // malformed long inputs
+        out.insert(0, &format!("{t}("), 4);
+        out.insert(0, &format!("{t}{{"), 5);
+        out.delete(0, &format!("{t})"));
     }
 }
